@@ -133,8 +133,9 @@ def run_exact(ctx, res, dag, lines, post):
             lines.extend(lean_lines(dag, perm2, xs, []))
             post.extend([None] * (len(dag['comps']) + 1) + [('exact', dag, list(perm2), xs, got)])
             # requested-output subsets
-            for _ in range(2):
-                tg = rng.sample(all_out, rng.randint(1, len(all_out)))
+            deepest = [list(dag['comps'][-1]['outs']), [dag['comps'][-1]['outs'][0]]]   # a target with the longest ancestry
+            for ti in range(4):
+                tg = deepest[ti] if ti < 2 else rng.sample(all_out, rng.randint(1, len(all_out)))
                 yt = system.predict(xin, use_model='best', normalized_inputs=False, targets=tg)
                 for o in tg:
                     if o not in yt or float(np.asarray(yt[o])[0]) != ref[o]:
@@ -161,7 +162,8 @@ def run_mutations(ctx, res, dag):
     import copy
     rng = ctx.rng
     n = len(dag['comps'])
-    perm = tuple(rng.sample(range(n), n))
+    # consumers listed BEFORE their producers in half of the cases (the listing must not matter, before or after the edits)
+    perm = tuple(reversed(range(n))) if rng.random() < 0.5 else tuple(rng.sample(range(n), n))
     norms = {}
     system = build_exact_system(dag, perm, norms)
     xs = {v: float(rng.choice([-3, -2, -1, 1, 2, 3, 0.5, -1.5])) for v in dag['exo']}
@@ -183,8 +185,12 @@ def run_mutations(ctx, res, dag):
             cand = [v for v in avail if v not in c['ins']]
             if not cand:
                 continue
-            j = rng.randrange(len(c['ins']))
-            c['ins'] = c['ins'][:j] + [rng.choice(cand)] + c['ins'][j + 1:]
+            # prefer a NEW dependency on a component that is listed after the rewired one, replacing an exogenous input
+            later = [v for v in cand if v.startswith('y') and
+                     perm.index(int(v[1:].split('_')[0])) > perm.index(k)]
+            exo_pos = [jj for jj, v in enumerate(c['ins']) if v.startswith('x')]
+            j = rng.choice(exo_pos) if exo_pos and rng.random() < 0.7 else rng.randrange(len(c['ins']))
+            c['ins'] = c['ins'][:j] + [rng.choice(later or cand)] + c['ins'][j + 1:]
             vars_ = {str(v): v for cc_ in system.components for v in list(cc_.inputs) + list(cc_.outputs)}
 
             def var(nm):
@@ -383,7 +389,8 @@ def run(ctx: core.Ctx, only=None) -> core.Result:
             elif 'dag' in it:
                 run_exact(ctx, res, it['dag'], lines, post)
                 if it.get('edits', True):
-                    run_mutations(ctx, res, it['dag'])
+                    for _ in range(2):
+                        run_mutations(ctx, res, it['dag'])
             else:
                 run_surrogate(ctx, res, it['seed'])
     out = core.try_driver(lines, res, 'Amisc.predictFF')
